@@ -71,6 +71,32 @@ def rules(ctx):
                 detail = "the body-limit layer is applied before the routes are registered (axum layers wrap only earlier routes)"
         ctx.decide(o, ok, "serve(listener, router with /health, /solve%s)" % (" and layer" if ly else ""), detail,
                    loc=ly[0].line() if ly else None)
+        # instances are large: the default 2 MB body limit of axum must be lifted, else a valid request is refused with 413
+        o = ctx.ob("R1.body-limit-lifted", "T7", MAIN, "the served router lifts axum's default request-body limit (DefaultBodyLimit::disable or a larger max)")
+        lim = [c for c in ly if any("DefaultBodyLimit" in t or "RequestBodyLimit" in t for t in c.targs)]
+        if not ly:
+            ctx.bad(o, "no layer is applied to the router: axum's default body limit of 2 MB applies, so a valid instance larger than that is answered with 413 instead of a solution")
+        elif not lim:
+            ctx.undecided(o, "a layer is applied but it is not recognised as a body-limit layer")
+        else:
+            src = fd.slice_operand_pure(lim[0], lim[0].args[1])["atoms"]
+            dis = any(a.endswith("DefaultBodyLimit::disable") for a in src)
+            mx = any(a.endswith("DefaultBodyLimit::max") for a in src)
+            if dis or mx:
+                ctx.ok(o, "DefaultBodyLimit::%s" % ("disable" if dis else "max"))
+            else:
+                ctx.undecided(o, "the body-limit layer is not built by disable()/max()")
+    # the handler blocks its executor thread while it solves: with a single-threaded runtime /health and every other request stall
+    o, fdm = ctx.require_fn("R4.multi-threaded-runtime", "T7", "bin:server::main", "the server runs on tokio's multi-threaded runtime")
+    if fdm is not None:
+        names = {(c.callee or "").split("::")[-1] for c in fdm.body.calls() if "tokio::runtime::builder::Builder::new_" in (c.callee or "")}
+        if "new_current_thread" in names:
+            ctx.bad(o, "the runtime is built with Builder::new_current_thread: the blocking solve handler occupies the only executor thread, "
+                       "so GET /health and concurrent requests are not answered while an instance is solved")
+        elif "new_multi_thread" in names:
+            ctx.ok(o, "Builder::new_multi_thread")
+        else:
+            ctx.undecided(o, "runtime construction not recognised")
     o, fd = ctx.require_fn("R1.health-answer", "T7", "bin:server::healthy::{closure#0}", "healthy answers the constant \"Healthy\"")
     if fd is not None:
         consts = set()
